@@ -224,7 +224,13 @@ func (sc *Scheduler) Schedule(ctx context.Context, g *ExecutionGraph, done chan 
 							// close this attempt's files before the node can be launched again
 							_ = sc.teardownNode(node)
 							handedOver = true
+							node.incDoneCount()
 							node.setStatus(NodeStatusNone)
+							// from here on the node belongs to its next attempt
+							if done != nil {
+								done <- node
+							}
+							return
 						default:
 							// finish the node
 							node.setStatus(NodeStatusError)
